@@ -84,7 +84,7 @@ theorem oc_pushNexts (R : RHyp E rank Good) {fuel : Nat} : ∀ (l : List (UNT U)
     split at hp
     · simp at hp
     · rename_i s1 h1
-      obtain ⟨g1, hsub, hkept, hmono, hres⟩ := h.pushNext R (fun hm => hdisj nt hm List.mem_cons_self) (by simp [doneR])
+      obtain ⟨g1, hsub, hkept, hmono, hres, _⟩ := h.pushNext R (fun hm => hdisj nt hm List.mem_cons_self) (by simp [doneR])
         (by intro k hk; cases hk) (fun _ => rfl) (E.ops.ofRule 0) (by intro x hx; cases hx)
         (by intro k w pr hk; cases hk) h1
       have hinit1 : s1.initS ≠ [] := by
@@ -196,26 +196,12 @@ theorem OC.kwayLoop (R : RHyp E rank Good) {fuel : Nat} : ∀ (k : Nat) {s s' : 
       exact Or.inl ⟨rfl, hc, (Heapq.pop_none_iff _ _).mp hpop⟩
     · rename_i e h' hpop
       obtain ⟨pa, q, nt⟩ := e
-      obtain ⟨hm, hsub⟩ := mem_of_pop _ _ _ _ hpop
       have hperm := Heapq.pop_perm _ _ _ _ hpop
-      obtain ⟨hsh', hmin⟩ := Heapq.pop_isHeap_on (ltS_weakOrderOn H) _ _ _ (start_good R h.base.sinv) h.sheap hpop
-      obtain ⟨g0, hnt0, hpq⟩ := h.ginv.popStart R.disj hpop
-      have h0 : OG E rank { s with startHeap := h' } ((pa, q, nt) :: emE) := by
-        refine ⟨⟨g0.sinv, g0.ninv, h.base.hinv, h.base.nodel⟩, g0, ?_, ?_, ?_, hsh', ?_⟩
-        · exact h.all.same (fun _ => ⟨rfl, rfl, rfl, rfl, rfl, fun _ => rfl, fun _ _ => rfl⟩) (Stable.refl _)
-        · intro e' he' x hx
-          rcases List.mem_cons.mp hx with rfl | hx
-          · exact hmin e' (hsub e' he')
-          · exact h.heap_ge e' (hsub e' he') x hx
-        · exact List.pairwise_cons.mpr ⟨fun x hx => h.heap_ge _ hm x hx, h.sorted⟩
-        · intro x hx
-          rcases List.mem_cons.mp hx with rfl | hx
-          · exact h.base.sinv.start_ok _ hm
-          · exact h.em_key x hx
+      obtain ⟨h0, hnt0, hpq, hm, hqdel⟩ := h.popStart R hpop
       split at hp
       · simp at hp
       · rename_i s1 hpn
-        obtain ⟨g1, _, hkept, hmono, hres⟩ := h0.pushNext R hnt0 (by simp [doneR_cons_self])
+        obtain ⟨g1, _, hkept, hmono, hres, hdl⟩ := h0.pushNext R hnt0 (by simp [doneR_cons_self])
           (by intro k hk; cases hk; exact hpq) (by intro hk; cases hk) pa
           (by
             intro x hx
@@ -231,7 +217,11 @@ theorem OC.kwayLoop (R : RHyp E rank Good) {fuel : Nat} : ∀ (k : Nat) {s s' : 
             cases hw'
             rw [hasPrio_fun H _ _ _ _ hpr hpr']
             exact he) hpn
-        have hnd : s1.deleted.contains q = false := by rw [g1.base.nodel]; rfl
+        have hnd : s1.deleted.contains q = false := by
+          rw [hdl]
+          cases hcq : s.deleted.contains q with
+          | false => rfl
+          | true => exact absurd (by simpa using hcq) hqdel
         simp only [hnd, Bool.false_eq_true, if_false, Option.some.injEq, Prod.mk.injEq] at hp
         obtain ⟨rfl, rfl⟩ := hp
         refine Or.inr ⟨(pa, q, nt), rfl, g1, ?_⟩
@@ -296,10 +286,28 @@ theorem OC.startQuery (R : RHyp E rank Good) {fuel : Nat} {s s' : St U π} {emE 
         rw [h0] at this; cases this
       · exact Or.inr hr
 
+theorem OC.addDeleted (R : RHyp E rank Good) {s : St U π} {emE : List (π × Prog × UNT U)} {e : π × Prog × UNT U}
+    (h : OC E rank s (e :: emE)) (hf : E.filter e.2.1 = false) : OC E rank (s.addDeleted e.2.1) (e :: emE) := by
+  refine ⟨h.og.addDeleted R hf, ?_⟩
+  have hsame : ∀ nt, Same s (s.addDeleted e.2.1) nt := by
+    intro nt
+    unfold St.addDeleted
+    split
+    · exact Same.refl _ _
+    · exact ⟨rfl, rfl, rfl, rfl, rfl, fun _ => rfl, fun _ _ => rfl⟩
+  have hinit : (s.addDeleted e.2.1).initS = s.initS := by
+    unfold St.addDeleted; split <;> rfl
+  have hsh : (s.addDeleted e.2.1).startHeap = s.startHeap := by
+    unfold St.addDeleted; split <;> rfl
+  intro hi nt w hw hn
+  rw [hinit] at hi
+  rw [hsh] at hn
+  exact (h.exh hi nt w hw hn).keep (Kept.of_same (hsame nt)) (fun x hx => hx)
+
 theorem OC.next (R : RHyp E rank Good) {fuel : Nat} : ∀ (k : Nat) {s s' : St U π} {emE : List (π × Prog × UNT U)}
     {r : Option Prog}, OC E rank s emE → next E fuel k s = some (s', r) →
-    (r = none ∧ OC E rank s' emE ∧ s'.startHeap = [] ∧ (E.G.starts ≠ [] → s'.initS ≠ [])) ∨
-      (∃ e, r = some e.2.1 ∧ OC E rank s' (e :: emE))
+    ∃ new, RejAll E new ∧ ((r = none ∧ OC E rank s' (new ++ emE) ∧ s'.startHeap = [] ∧ (E.G.starts ≠ [] → s'.initS ≠ [])) ∨
+      (∃ e, r = some e.2.1 ∧ E.filter e.2.1 = true ∧ OC E rank s' (e :: (new ++ emE))))
   | 0, s, s', emE, r, _, hp => by simp [UHS.next] at hp
   | k + 1, s, s', emE, r, h, hp => by
     simp only [UHS.next] at hp
@@ -308,19 +316,31 @@ theorem OC.next (R : RHyp E rank Good) {fuel : Nat} : ∀ (k : Nat) {s s' : St U
     · rename_i s1 hq
       simp only [Option.some.injEq, Prod.mk.injEq] at hp
       obtain ⟨rfl, rfl⟩ := hp
-      rcases h.startQuery R hq with hr | ⟨e, he, _⟩
-      · exact Or.inl hr
+      rcases h.startQuery R hq with ⟨_, g, c, d⟩ | ⟨e, he, _⟩
+      · exact ⟨[], (by intro x hx; cases hx), Or.inl ⟨rfl, g, c, d⟩⟩
       · cases he
     · rename_i s1 p hq
-      simp only [R.nofilter p, if_true, Option.some.injEq, Prod.mk.injEq] at hp
-      obtain ⟨rfl, rfl⟩ := hp
-      rcases h.startQuery R hq with ⟨he, _⟩ | hr
+      rcases h.startQuery R hq with ⟨he, _⟩ | ⟨e, he, g⟩
       · cases he
-      · exact Or.inr hr
+      · cases he
+        split at hp
+        · rename_i hf
+          simp only [Option.some.injEq, Prod.mk.injEq] at hp
+          obtain ⟨rfl, rfl⟩ := hp
+          exact ⟨[], (by intro x hx; cases hx), Or.inr ⟨e, rfl, hf, g⟩⟩
+        · rename_i hf
+          have hf' : E.filter e.2.1 = false := by simpa using hf
+          obtain ⟨new, hnew, hres⟩ := OC.next R k (g.addDeleted R hf') hp
+          refine ⟨new ++ [e], ?_, ?_⟩
+          · intro x hx
+            rcases List.mem_append.mp hx with h1 | h1
+            · exact hnew x h1
+            · simp only [List.mem_singleton] at h1; subst h1; exact hf'
+          · simpa [List.append_assoc] using hres
 
 theorem OC.take (R : RHyp E rank Good) {fuel : Nat} : ∀ (k : Nat) {s s' : St U π} {emE : List (π × Prog × UNT U)}
-    {acc out : List Prog} {b : Bool}, OC E rank s emE → acc = (emE.map (·.2.1)).reverse →
-    take E fuel k s acc = some (s', out, b) → ∃ emE', OC E rank s' emE' ∧ out = (emE'.map (·.2.1)).reverse ∧
+    {acc out : List Prog} {b : Bool}, OC E rank s emE → acc = accepted E emE →
+    take E fuel k s acc = some (s', out, b) → ∃ emE', OC E rank s' emE' ∧ out = accepted E emE' ∧
       (b = true → s'.startHeap = [] ∧ (E.G.starts ≠ [] → s'.initS ≠ []))
   | 0, s, s', emE, acc, out, b, h, hacc, hp => by
     simp only [UHS.take, Option.some.injEq, Prod.mk.injEq] at hp
@@ -333,19 +353,28 @@ theorem OC.take (R : RHyp E rank Good) {fuel : Nat} : ∀ (k : Nat) {s s' : St U
     · rename_i s1 hn
       simp only [Option.some.injEq, Prod.mk.injEq] at hp
       obtain ⟨rfl, rfl, _⟩ := hp
-      rcases h.next R fuel hn with ⟨_, g, c, d⟩ | ⟨e, he, _⟩
-      · exact ⟨emE, g, hacc, fun _ => ⟨c, d⟩⟩
+      obtain ⟨new, hnew, hres⟩ := h.next R fuel hn
+      rcases hres with ⟨_, g, c, d⟩ | ⟨e, he, _, _⟩
+      · exact ⟨new ++ emE, g, by rw [accepted_rej E new emE hnew]; exact hacc, fun _ => ⟨c, d⟩⟩
       · cases he
     · rename_i s1 p hn
-      rcases h.next R fuel hn with ⟨he, _⟩ | ⟨e, he, g⟩
+      obtain ⟨new, hnew, hres⟩ := h.next R fuel hn
+      rcases hres with ⟨he, _⟩ | ⟨e, he, hf, g⟩
       · cases he
       · cases he
-        exact OC.take R k g (by rw [hacc]; simp) hp
+        refine OC.take R k g ?_ hp
+        unfold accepted
+        simp only [List.filter_cons, hf, if_true, List.map_cons, List.reverse_cons]
+        have := accepted_rej E new emE hnew
+        unfold accepted at this
+        rw [this, hacc]
+        rfl
 
-/-- **COMPLETENESS when the generator stops**: every program derivable from a start symbol was yielded -/
+/-- **COMPLETENESS when the generator stops** (with or without filter): every program derivable from a
+    start symbol all of whose sub-programs are accepted by the filter was yielded -/
 theorem take_complete (R : RHyp E rank Good) (fuel k : Nat) (s' : St U π) (out : List Prog)
     (h : take E fuel k (St.empty E.G) [] = some (s', out, true)) (p : Prog) (nt : UNT U) (w : Rat)
-    (hw : startW E nt = some w) (hd : Der E p nt) : p ∈ out := by
+    (hw : startW E nt = some w) (hd : Der E p nt) (hcl : PS.HG.clean E.filter p = true) : p ∈ out := by
   obtain ⟨emE, hc, hout, hstop⟩ := (oc_empty E).take R k rfl h
   obtain ⟨hsh, hin⟩ := hstop rfl
   have hstarts : E.G.starts ≠ [] := by
@@ -357,10 +386,14 @@ theorem take_complete (R : RHyp E rank Good) (fuel k : Nat) (s' : St U π) (out 
     rcases hc.og.all nt with hu | hf
     · have := hex.1; rw [hu.1] at this; cases this
     · exact hf
-  have hp := exhausted_complete R.ohyp hc.og.base hc.og.all (rank nt) nt rfl hfull hex.2.1 p hd
-    (PS.HG.clean_of_all E.filter R.nofilter p)
+  have hp := exhausted_complete R.ohyp hc.og.base hc.og.all (rank nt) nt rfl hfull hex.2.1 p hd hcl
   obtain ⟨x, hx, hxe⟩ := List.mem_map.mp (hex.2.2 p hp)
-  rw [hout, List.mem_reverse]
-  exact List.mem_map.mpr ⟨x, hx, by rw [hxe]⟩
+  rw [hout]
+  unfold accepted
+  rw [List.mem_reverse]
+  refine List.mem_map.mpr ⟨x, List.mem_filter.mpr ⟨hx, ?_⟩, by rw [hxe]⟩
+  have : x.2.1 = p := by rw [hxe]
+  rw [this]
+  exact PS.HG.clean_self E.filter p hcl
 
 end PS.UHS
